@@ -10,7 +10,7 @@ pub fn enum_audits(_s: u64) -> Vec<String> {
     ["chars :: axiom_not_ws axiom_blank_is_ws axiom_space_is_ws axiom_ws_is_not_a_symbol char::is_ascii_digit",
      "trim :: str::trim is_trim_of minimal axiom_trim_idempotent",
      "cmp :: String::cmp axiom_str_cmp_laws String==str axiom_str_ext axiom_string_eq",
-     "strops :: str_is_empty String::len str_skip_first_byte str_starts_with_string str_contains_char str_ends_with_char Chars::last str_to_chars chars_to_string",
+     "strops :: str_is_empty String::len str_skip_first_byte str_starts_with_string str_contains_char str_ends_with_char Chars::last str_to_chars chars_to_string axiom_string_add_assign",
      "hashmap :: axiom_kb_lookup axiom_kb_one_value",
      "floats :: i64_to_f64 axiom_f64_arith_is_a_function axiom_f64_eq_sym axiom_f64_cmp_converse",
      "slices :: to_vec axiom_cloned_char",
@@ -104,6 +104,8 @@ pub fn check_audit(case: &str) -> Result<(), String> {
                     if r.chars().collect::<Vec<char>>() != cs[1..] { return Err(format!("&s[1..] on {:?}", s)); }
                 }
                 if cs.iter().collect::<String>() != *s { return Err(format!("chars_to_string(str_to_chars({:?}))", s)); }
+                // `+=` on a String appends (spec/std_eq.rs axiom_string_add_assign)
+                { let mut t = String::from("x\u{e9}"); t += s; t += ", "; let want: String = "x\u{e9}".chars().chain(cs.iter().cloned()).chain(", ".chars()).collect(); if t != want { return Err(format!("String += {:?}", s)); } }
                 for c in alpha {
                     if s.contains(c) != cs.contains(&c) { return Err(format!("contains({:?}) on {:?}", c, s)); }
                     if s.ends_with(c) && cs.is_empty() { return Err(format!("ends_with({:?}) on the empty text", c)); }
